@@ -15,6 +15,9 @@ F_ACKERR = "C05-ack-despite-apply-error"
 F_FORCED = "C05-forced-truncation-strands-member"
 F_STALE = "C05-stale-tolerance-timer-after-leadership-loss"
 F_LAG = "C05-master-elected-before-catch-up"
+F_RACE = "C05-restart-replay-after-newer-entries"
+RACE_TEXT = ("the restart replay of a rejoining member is not ordered before the entries raft publishes after the restart: an older "
+             "write re-applied by the replay overwrites a newer acknowledged write of the same point on that replica for good")
 
 
 # ------------------------------------------------------------------ rendering harness cases as Coq terms
@@ -111,6 +114,8 @@ def case_coq(c):
     if k == "readsel":
         return "CReadSel %s %s [%s] %s %s" % ("true" if c["health"] else "false", nat(c["master"]),
                                               "; ".join("true" if x else "false" for x in c["online"]), nlist(c["shardPts"]), nlist(c.get("sel")))
+    if k == "group" and c["forced"] == "replayrace":
+        return "CGroupR %s" % ("true" if c["missing"] > 0 else "false")
     if k == "group" and c["forced"] == "lagmaster":
         return "CGroupL %s" % ("true" if c["missing"] > 0 else "false")
     if k == "group" and c["forced"] in ("second", "stale"):
@@ -173,6 +178,13 @@ def lag_signature(c):
             and c["victimApplied"] < c["groupCommit"])
 
 
+def race_signature(c):
+    """finding C05-restart-replay-after-newer-entries (in-process): the rejoined member has caught up in raft terms, and every
+    acknowledged point that is wrong on it shows exactly the value of the older entry that its restart replay re-applied"""
+    return (c["kind"] == "group" and c["forced"] == "replayrace" and c["missing"] > 0 and c["missing"] == c.get("staleOld")
+            and c["victimApplied"] >= c["groupCommit"])
+
+
 def open_finding(ck, fid):
     """ck.match_finding, extended by this property's own fragment for entries not yet merged into known_findings.json"""
     f = ck.match_finding(fid)
@@ -217,7 +229,8 @@ def main(ck):
                               "Print Assumptions: closed under the global context (no axioms)",
                               "Go harness cmd/c05 (fake raft driver, recording storage), python driver props/C05/run.py"]
     ck.coq_audit(["C05"])
-    ok = ck.coq_build(["C05/Final.vo", "C05/TruncProofs.vo", "C05/Catchup.vo", "C05/Corr.vo"])
+    ok = ck.coq_build(["C05/Final.vo", "C05/TruncProofs.vo", "C05/Catchup.vo", "C05/Refine.vo", "C05/RestartRace.vo", "C05/Corr.vo"])
+    ck.c05_open = lambda fid: open_finding(ck, fid)     # for the cluster driver
     if ok:
         ck.coq_props(["C05/Props.v", "C05/Refuted.v"])
     ck.log("coq done")
@@ -258,6 +271,8 @@ def main(ck):
         # the real 3-node group scenarios run as separate processes next to the case stream, the cluster in a thread
         gprocs = [subprocess.Popen([binp, "group", "30100", f], stdout=subprocess.PIPE, stderr=subprocess.DEVNULL, text=True,
                                    cwd=ck.work, env=env) for f in ("time", "size", "none", "lag", "second", "stale", "lagmaster")]
+        gprocs.append(subprocess.Popen([binp, "group", "0", "replayrace"], stdout=subprocess.PIPE, stderr=subprocess.DEVNULL, text=True,
+                                       cwd=ck.work, env=env))
         cth = threading.Thread(target=cluster, args=(ck,))
         cth.start()
         rc, out = ck.run([binp, "cases", str(n)], timeout=3000)
@@ -318,13 +333,15 @@ def main(ck):
     ck.log("model evaluation done")
     # ---- verdicts
     kinds = {}
-    variants = {"replay": set(), "ack": set(), "ackerr": set(), "group": set(), "trunc": set(), "groupT": set(), "groupL": set()}
+    variants = {"replay": set(), "ack": set(), "ackerr": set(), "group": set(), "trunc": set(), "groupT": set(), "groupL": set(), "groupR": set()}
 
     def vkey(c):
         if c["kind"] == "group" and c["forced"] in ("second", "stale"):
             return "groupT"
         if c["kind"] == "group" and c["forced"] == "lagmaster":
             return "groupL"
+        if c["kind"] == "group" and c["forced"] == "replayrace":
+            return "groupR"
         return c["kind"]
 
     mism = []
@@ -364,6 +381,8 @@ def main(ck):
                 fid = F_STALE
             elif c["kind"] == "group" and lag_signature(c):
                 fid = F_LAG
+            elif c["kind"] == "group" and race_signature(c):
+                fid = F_RACE
             oracle_fail.append((i, what, fid))
     reported = 0
     for i, what, fid in oracle_fail:
@@ -376,6 +395,7 @@ def main(ck):
                 F_LAG: "after the store of the master partition died, electRgMaster makes the first online slave peer the master and "
                        "reads are mapped to it although it rejoined a moment ago and has not caught up: with one store down "
                        "acknowledged points are missing or stale in the answers until it has caught up",
+                F_RACE: RACE_TEXT,
                 F_STALE: "the tolerance timer of the truncation decision keeps running while the node is not the leader: a node that "
                          "regains the leadership during a later, short outage forces the truncation at once although the group was "
                          "healthy in between (real group: the rejoined member then lacks acknowledged points)",
